@@ -270,7 +270,7 @@ type WPlan struct {
 }
 
 func genWPlan(t *rapid.T) WPlan {
-	return WPlan{Ops: rapid.SliceOfN(rapid.SampledFrom([]int{0, 0, 0, 1, 2, 3}), 1, 25).Draw(t, "ops")}
+	return WPlan{Ops: rapid.SliceOfN(rapid.SampledFrom([]int{0, 0, 0, 1, 2, 3, 9}), 1, 25).Draw(t, "ops")} // 9 = Set(zero value)
 }
 
 func closed(c chan struct{}) bool {
@@ -313,6 +313,9 @@ func runW(p WPlan) (vk.Outcome, error) {
 		} else {
 			sets++
 			cur = o*100 + sets
+			if o == 9 {
+				cur = 0 // setting the zero value is a Set like any other
+			}
 			w.Set(cur)
 			lastWasSet++
 		}
